@@ -84,3 +84,36 @@ benign('C09', 'mass arm regrouped', UC, 'nu.kg = J * nu.s**2 / nu.m**2', 'nu.kg 
 benign('C09', 'style string regrouped', ST, "'kcal/(mol*angstrom)'", "'kcal/mol/angstrom'")
 benign('C09', 'set_in_units commuted', UC, 'return np.asarray(value) * units', 'return units * np.asarray(value)')
 benign('C09', 'reduction: product assigned directly', UC, "                value = [terms[0] * terms[2]]\n                terms = value + terms[3:]", "                terms = [terms[0] * terms[2]] + terms[3:]")
+
+# ------------------------------------------------------------------ C01
+BOX = 'atomman/core/Box.py'
+PLANE = 'atomman/region/Plane.py'
+mutant('C01', 'regress-F1 shape test on raw argument', BOX, "        value = np.asarray(cartpos, dtype=float)\n        if value.shape[-1] != 3:", "        value = np.asarray(cartpos, dtype=float)\n        if cartpos.shape[-1] != 3:", 'ARRAYLIKE')
+mutant('C01', 'set_abc xz uses alpha', BOX, 'xz = c * np.cos(beta * np.pi / 180)', 'xz = c * np.cos(alpha * np.pi / 180)', 'CHAIN')
+mutant('C01', 'set_abc yz missing cross term', BOX, 'yz = (b * c * np.cos(alpha * np.pi / 180) - xy * xz) / ly', 'yz = (b * c * np.cos(alpha * np.pi / 180)) / ly', 'CHAIN')
+mutant('C01', 'set_hi_los origin swapped', BOX, 'origin = [xlo, ylo, zlo]', 'origin = [xlo, zlo, ylo]', 'CHAIN')
+mutant('C01', 'set_lengths tilt transposed', BOX, "                      [xy, ly,  0.0],\n                      [xz, yz,  lz]]", "                      [xy, ly,  0.0],\n                      [yz, xz,  lz]]", 'CHAIN')
+mutant('C01', 'beta getter uses wrong rows', BOX, 'return vect_angle(self.__vects[0], self.__vects[2])', 'return vect_angle(self.__vects[1], self.__vects[2])', 'GETTERS')
+mutant('C01', 'yhi uses lz', BOX, 'return self.__origin[1] + self.__vects[1,1]', 'return self.__origin[1] + self.__vects[2,2]', 'GETTERS')
+mutant('C01', 'volume without abs', BOX, 'return np.abs(np.dot(self.avect, np.cross(self.bvect, self.cvect)))', 'return np.dot(self.avect, np.cross(self.bvect, self.cvect))', 'GETTERS')
+mutant('C01', 'cache reset made conditional', BOX, "        # Reset reciprocal_vects\n        self.__reciprocal_vects = None", "        if np.any(self.__vects == 0.0):\n            self.__reciprocal_vects = None", 'CACHE')
+mutant('C01', 'cache reset dropped', BOX, "        # Reset reciprocal_vects\n        self.__reciprocal_vects = None", "        # Reset reciprocal_vects", 'CACHE')
+mutant('C01', 'clean-up threshold absolute', BOX, 'np.isclose(self.__vects/abs(self.__vects).max(), 0.0, atol=1e-9)', 'np.isclose(self.__vects, 0.0, atol=1e-9)', 'CACHE')
+mutant('C01', 'second writer of the vectors', BOX, "        lx = xhi - xlo\n        ly = yhi - ylo", "        self.__vects[0, 0] = xhi - xlo\n        lx = xhi - xlo\n        ly = yhi - ylo", 'CACHE')
+mutant('C01', 'vects getter hands out storage', BOX, '        return deepcopy(self.__vects)', '        return self.__vects', 'CACHE')
+mutant('C01', 'reciprocal without transpose', BOX, 'self.__reciprocal_vects = np.linalg.inv(self.vects).T', 'self.__reciprocal_vects = np.linalg.inv(self.vects)', None)
+mutant('C01', 'c2r forgets origin', BOX, 'return np.inner((value - self.origin), self.reciprocal_vects)', 'return np.inner(value, self.reciprocal_vects)', 'CONVERT')
+mutant('C01', 'c2r shifts the caller array in place', BOX, "        return np.inner((value - self.origin), self.reciprocal_vects)", "        value -= self.origin\n        return np.inner(value, self.reciprocal_vects)", 'CONVERT')
+mutant('C01', 'plane normal flipped', BOX, 'Plane(np.cross(self.avect, self.cvect), self.origin),', 'Plane(np.cross(self.cvect, self.avect), self.origin),', 'INSIDE')
+mutant('C01', 'upper face point wrong', BOX, 'Plane(np.cross(self.cvect, self.avect), self.origin + self.bvect),', 'Plane(np.cross(self.cvect, self.avect), self.origin + self.avect),', 'INSIDE')
+mutant('C01', 'inside drops a face', BOX, "               & planes[4].below(pos, inclusive=inclusive)\n", "", 'INSIDE')
+mutant('C01', 'one face ignores inclusive', BOX, '& planes[3].below(pos, inclusive=inclusive)', '& planes[3].below(pos)', 'INSIDE')
+mutant('C01', 'below inclusive operators swapped', PLANE, "        if inclusive:\n            return normpos <= normpoint\n        else:\n            return normpos < normpoint", "        if inclusive:\n            return normpos < normpoint\n        else:\n            return normpos <= normpoint", 'INSIDE')
+mutant('C01', 'below sums wrong axis for stacks', PLANE, 'normpos = np.inner(self.normal, pos)', 'normpos = (pos * self.normal).sum(axis=1 if pos.ndim > 1 else 0)', 'INSIDE')
+mutant('C01', 'outside keeps boundary rule', 'atomman/region/Shape.py', 'return ~self.inside(pos, inclusive=not inclusive)', 'return ~self.inside(pos, inclusive=inclusive)', 'INSIDE')
+benign('C01', 'a getter via np.linalg.norm', BOX, 'return (self.__vects[0,0]**2 + self.__vects[0,1]**2 + self.__vects[0,2]**2)**0.5', 'return np.linalg.norm(self.__vects[0])')
+benign('C01', 'set_abc radians helper', BOX, 'xy = b * np.cos(gamma * np.pi / 180)', 'xy = b * np.cos(np.radians(gamma))')
+benign('C01', 'r2c via np.dot', BOX, 'return relpos.dot(self.vects) + self.origin', 'return self.origin + np.dot(relpos, self.vects)')
+benign('C01', 'c2r via explicit inverse', BOX, 'return np.inner((value - self.origin), self.reciprocal_vects)', 'return np.dot(value - self.origin, np.linalg.inv(self.vects))')
+benign('C01', 'below via tensordot-free form', PLANE, 'normpos = np.inner(self.normal, pos)', 'normpos = np.dot(pos, self.normal)')
+benign('C01', 'planes with negated swapped cross', BOX, 'Plane(np.cross(self.cvect, self.bvect), self.origin),', 'Plane(-np.cross(self.bvect, self.cvect), self.origin),')
